@@ -87,7 +87,7 @@ func (w *World) verifyFunction(c *Contract) (res *FuncResult) {
 	env := vc.contractEnv(c, args, nil, st, nil)
 	var reqs []string
 	for _, cl := range vc.clauses(c) {
-		if cl.Raw.Kind == "requires" || cl.Raw.Kind == "use" {
+		if cl.Raw.Kind == "requires" || cl.Raw.Kind == "use" && cl.Raw.Loop < 0 {
 			t := vc.specBool(env, cl.Expr)
 			reqs = append(reqs, t)
 			vc.assume("true", t)
@@ -503,10 +503,32 @@ func (w *World) verifyLemma(l *Lemma) (res *FuncResult) {
 		res.Trusted = append(res.Trusted, "induction principle over a natural-number parameter: lemma "+l.Raw.Name+" follows from the proved lemmas "+strings.Join(l.Raw.Induction, " (base) and ")+" (step); that they are the base and step instances of its statement is by inspection")
 		return res
 	}
-	vc.oblige(st, "lemma", "", vc.specBool(env, l.Concl), l.Decl.Pos(), l.Raw.Props)
+	if l.Raw.Cases == "profile" && len(l.Params) > 0 && len(env.vars[l.Params[0]].L) == 1 {
+		// case split over the first parameter: every message number of the profile, and "none of them"; the
+		// conditions cover all values by construction
+		concl := vc.specBool(env, l.Concl)
+		m := env.vars[l.Params[0]].L[0]
+		wd := widthOf(l.Params[0].Type())
+		var subs []*SubGoal
+		var none []string
+		nums := vc.w.profileMsgNums()
+		for _, k := range nums {
+			c := eq(m, bvLit(wd, uint64(k)))
+			none = append(none, not(c))
+			subs = append(subs, &SubGoal{Prefix: len(vc.script), Cond: c, Goal: concl})
+		}
+		subs = append(subs, &SubGoal{Prefix: len(vc.script), Cond: and(none...), Goal: concl})
+		vc.obligeSubs("lemma", "", subs, false, l.Decl.Pos(), l.Raw.Props)
+	} else {
+		vc.oblige(st, "lemma", "", vc.specBool(env, l.Concl), l.Decl.Pos(), l.Raw.Props)
+	}
 	if vc.revealed["rvtables"] {
 		o := vc.obls[len(vc.obls)-1]
-		o.Extra = append(o.Extra, vc.rvTableAxioms(-1)...)
+		ax := vc.rvTableAxioms(-1)
+		o.Extra = append(o.Extra, ax...)
+		for _, sg := range o.Subs {
+			sg.Extra = append(sg.Extra, ax...)
+		}
 	}
 	if l.Raw.TimeoutS > 0 {
 		vc.obls[len(vc.obls)-1].TimeoutMs = l.Raw.TimeoutS * 1000
